@@ -226,7 +226,12 @@ fn gen_cfg(p: &Profile, rng: &mut Rng) -> PoolCfg {
 }
 
 fn gen_kind(p: &Profile, cfg: &PoolCfg, rng: &mut Rng) -> TaskKind {
-    let dur = |rng: &mut Rng| Duration::from_millis(rng.range(1, 50) * 10);
+    let dur = |rng: &mut Rng| match rng.below(8) {
+        0 => Duration::from_nanos(1),
+        1 => Duration::from_micros(500),
+        2 => Duration::from_micros(999),
+        _ => Duration::from_millis(rng.range(1, 50) * 10),
+    };
     let per_call = if p.per_call && rng.chance(1, 2) {
         // now and then a timeout is used although the pool has no runtime (=> NoRuntimeSpecified)
         let rt_ok = cfg.runtime || rng.chance(1, 8);
